@@ -17,7 +17,7 @@ class C07(ModelCheck):
             'lists, and the close event of each. non-trivial: >= 3 events and >= 2 windows; distinct = distinct (program, schedule)')
     assumptions = ['timestamps are non-decreasing per key (they are read from the virtual clock)',
                    'empty windows (opened eagerly after a closing item) are implementation detail and ignored on both sides']
-    probe_names = ('zero_timeout', 'include_flag_not_bool', 'numpy_timestamps', 'datetime_gap>=1day', 'gap==inactive', 'gap==active', 'equal_timestamps', 'consecutive_closing', 'closing_last',
+    probe_names = ('closing_mapper_is_falsy_callable', 'zero_timeout', 'include_flag_not_bool', 'numpy_timestamps', 'datetime_gap>=1day', 'gap==inactive', 'gap==active', 'equal_timestamps', 'consecutive_closing', 'closing_last',
                    'expiring_and_closing', 'datetime', 'under_group_by', 'both_none')
 
     def gen_program(self, rng, tier):
@@ -29,6 +29,8 @@ class C07(ModelCheck):
                 'inactive': rng.choice([None, None, 1, 2, 3, 0]),
                 'closing': closing, 'include': rng.choice([True, True, False, False, 'one', 'zero', 'np_true']) if closing else rng.random() < 0.5,
                 'dt': rng.choice([False, False, False, 'seconds', 'hours', 'hours', 'days', 'days', 'np_int', 'np_float', 'np_dt64'])}
+        if closing and rng.random() < 0.15:
+            node['closing'] = 'falsy_callable'      # the mapper is a callable object whose truth value is False
         inner = g.pipeline(St('rec', closing or node['active'] == 0 or node['inactive'] == 0), Flags(deny=('time_split', 'progress')), rng.choice([0, 0, 1]), rng.choice([1, 1, 2]))
         node['inner'] = inner
         if rng.random() < 0.55:
@@ -55,6 +57,8 @@ class C07(ModelCheck):
             p['both_none'] += 1
         if A == 0 or I == 0:
             p['zero_timeout'] += 1
+        if ts.get('closing') == 'falsy_callable':
+            p['closing_mapper_is_falsy_callable'] += 1
         seqs = {}
         for e in case['events']:
             seqs.setdefault(e['p'] if grouped else 0, []).append(e)
